@@ -38,6 +38,9 @@ static void case_history(const Args &a, long idx, bool wantDesc, CaseResult &res
     router->setRoutingParameter(Avoid::segmentPenalty, pen);
     if (orth) router->setRoutingParameter(Avoid::idealNudgingDistance, 1);
     if (!transactions) router->setTransactionUse(false);
+    // the public switch Router::InvisibilityGrph (default true): without the invisibility graph, edges hidden by an obstacle are re-created by
+    // checkAllMissingEdges() after that obstacle goes away (the library's own beautify / makefeasible tests run this way)
+    bool noInvis = !orth && R.coin(0.15); if (noInvis) router->InvisibilityGrph = false;
     // some histories also change a routing parameter (shapeBufferDistance) between transactions: the fresh router is built with the current value
     bool paramHistory = R.coin(orth ? 0.3 : 0.08); double buf = 0; bool bufChanged = false; static const double bufs[] = {0, 0.25, 0.5, 0.75};
     // (polyline histories start unbuffered: everything after their first change is F95 territory)
@@ -73,7 +76,7 @@ static void case_history(const Args &a, long idx, bool wantDesc, CaseResult &res
         Scene S; S.orthogonal = orth; S.params[Avoid::segmentPenalty] = pen; if (orth) S.params[Avoid::idealNudgingDistance] = 1; if (paramHistory) S.params[Avoid::shapeBufferDistance] = buf;
         for (auto &kv : shapes) { ShapeSpec sp; sp.poly = kv.second.poly; sp.isRect = kv.second.isRect; S.shapes.push_back(sp); }
         for (auto &c : conns) { ConnSpec cs; cs.src = c.src; cs.dst = c.dst; S.conns.push_back(cs); }
-        Built F; build(S, F);
+        Built F; build(S, F); if (noInvis) F.router->InvisibilityGrph = false;
         set_stage("fresh.processTransaction"); F.router->processTransaction(); set_stage("compare");
         for (size_t c = 0; c < conns.size(); c++) {
             const Avoid::PolyLine &inc = conns[c].ref->route(), &fresh = F.conns[c]->route(), &disp = conns[c].ref->displayRoute();
@@ -203,8 +206,8 @@ static void case_history(const Args &a, long idx, bool wantDesc, CaseResult &res
     res.count("route_comparisons", comparisons);
     res.nontrivial = routeChanges > 0;
     res.digest = D.h;
-    res.gen = std::string(orth ? "orthogonal" : "polyline") + (transactions ? "/transactions" : "/immediate") + (pen > 0 ? "/penalty" : "/nopenalty") + (lenient ? "/endpoints-inside-shapes" : "") + (paramHistory ? "/parameter-changes" : "");
-    if (wantDesc || !res.findings.empty()) res.desc = JObj().str("routing", orth ? "orthogonal" : "polyline").b("transactions", transactions).num("segmentPenalty", pen).raw("history", hist.done()).done();
+    res.gen = std::string(orth ? "orthogonal" : "polyline") + (transactions ? "/transactions" : "/immediate") + (pen > 0 ? "/penalty" : "/nopenalty") + (lenient ? "/endpoints-inside-shapes" : "") + (paramHistory ? "/parameter-changes" : "") + (noInvis ? "/no-invisibility-graph" : "");
+    if (wantDesc || !res.findings.empty()) res.desc = JObj().str("routing", orth ? "orthogonal" : "polyline").b("transactions", transactions).num("segmentPenalty", pen).b("Router::InvisibilityGrph", !noInvis).raw("history", hist.done()).done();
 }
 
 // pinned regression: F1 minimal witness (stale route after deleting a shape that forced a detour)
